@@ -15,19 +15,22 @@ Traces == JsonDeserialize(IOEnv.TRACES_FILE)
 VARIABLES tid, l, folds, sizes, testIdx, haveIdx, nTrain, predSeen, written, failedAt,
           fit,      \* thread -> state of the Model.fit running on it (ModelFit.tla: Start / FitEstimator / Relabel / Done)
           buf,      \* buffered writer -> [app, wr, size, fin] (TabularWrite.tla: Append / Flush / Finalize)
-          stage     \* command-line run (Pipeline.tla): 0 not started / finished, 1 verifying inputs, 2 inputs parsed and named
-vars == <<tid, l, folds, sizes, testIdx, haveIdx, nTrain, predSeen, written, failedAt, fit, buf, stage>>
+          stage,    \* command-line run (Pipeline.tla): 0 not started / finished, 1 verifying inputs, 2 inputs parsed and named
+          parsed    \* row counts of the tables parsed since the command-line run began (cross-stage conservation)
+vars == <<tid, l, folds, sizes, testIdx, haveIdx, nTrain, predSeen, written, failedAt, fit, buf, stage, parsed>>
 T == Traces[tid]
 E == T.events[l]
 SeqSet(s) == {s[i] : i \in 1..Len(s)}
 SumSeq(s) == FoldSet(LAMBDA i, a : a + s[i], 0, 1..Len(s))
 Init == /\ tid \in 1..Len(Traces) /\ l = 1 /\ folds = 0 /\ sizes = <<>> /\ testIdx = <<>> /\ haveIdx = FALSE /\ nTrain = 0
         /\ predSeen = <<>> /\ written = <<>> /\ failedAt = <<>>
-        /\ fit = <<>> /\ buf = <<>> /\ stage = 0
+        /\ fit = <<>> /\ buf = <<>> /\ stage = 0 /\ parsed = <<>>
 More == l <= Len(T.events) /\ failedAt = <<>>
 \* ---- per-event obligations: a set of failed clause names ----
 SplitBad ==
    LET nf == Len(E.sizes) IN
+   \* inside a command-line run every parsed table goes into the split, with all its rows (no PSM lost between the stages)
+   (IF stage # 2 \/ SortSeq(E.sizes, <) = SortSeq(parsed, <) THEN {} ELSE {"P:Split.rows_differ_from_the_parsed_tables"}) \cup
    (IF ~E.has_idx \/ Len(E.idx) = nf THEN {} ELSE {"D:Split.shape"}) \cup
    (IF ~E.has_idx \/ Len(E.idx) # nf THEN {} ELSE
     UNION {LET F == E.idx[f] IN
@@ -166,6 +169,8 @@ Step ==
              ELSE IF E.ev = "BufFinalize" THEN (E.w :> [BufOf(E.w) EXCEPT !.fin = TRUE]) @@ buf
              ELSE buf
   /\ stage' = IF E.ev = "CliVerify" THEN 1 ELSE IF E.ev = "CliPlan" THEN 2 ELSE IF E.ev = "CliConfidenceDone" THEN 0 ELSE stage
+  /\ parsed' = IF E.ev = "PinParsed" THEN Append(parsed, E.rows)
+                ELSE IF E.ev = "CliConfidenceDone" \/ (E.ev = "CliVerify" /\ stage = 0) THEN <<>> ELSE parsed
   /\ UNCHANGED tid
 Spec == Init /\ [][Step]_vars
 Terminal == ~More
